@@ -136,12 +136,14 @@ def build_package(d, name, spec):
         # the cube: one spectral point per band, stored in increasing frequency
         order = np.argsort([-BAND_WAV[b] for b in bands])
         wav = np.array([BAND_WAV[bands[i]] for i in order])
+        kunit = spec.get('cube_unit', 'mJy')                       # the cube may be tabulated in Jy or MJy (megajansky): same physical fluxes
+        kfac = {'mJy': 1.0, 'Jy': 1e-3, 'MJy': 1e-9}[kunit]
         if apdep:
-            val = np.transpose(spec['tables'], (0, 2, 1))[:, :, order]       # (n_models, n_ap, n_wav)
-            pkgwriter.write_cube(md, names, wav, val, unc=val * 0.01, apertures_au=spec['apertures'], valid=spec.get('valid'))
+            val = np.transpose(spec['tables'], (0, 2, 1))[:, :, order] * kfac       # (n_models, n_ap, n_wav)
+            pkgwriter.write_cube(md, names, wav, val, unc=val * 0.01, apertures_au=spec['apertures'], valid=spec.get('valid'), unit=kunit)
         else:
-            val = spec['flux'][:, None, :][:, :, order]
-            pkgwriter.write_cube(md, names, wav, val, unc=val * 0.01, apertures_au=None, valid=spec.get('valid'))
+            val = spec['flux'][:, None, :][:, :, order] * kfac
+            pkgwriter.write_cube(md, names, wav, val, unc=val * 0.01, apertures_au=None, valid=spec.get('valid'), unit=kunit)
     return md
 
 
